@@ -72,6 +72,8 @@ var stdDocs = map[string]string{
 	"(*math/big.Int).Neg":        "sets z to -x and returns z",
 	"time.Unix":                  "returns the Time for the given Unix seconds; (Time).Unix of it returns sec when nsec == 0",
 	"(time.Time).Unix":           "returns Unix seconds as a function of the time value",
+	"(time.Time).UTC":            "returns a Time denoting the same instant (same Unix seconds); only the location differs",
+	"(time.Time).Local":          "returns a Time denoting the same instant (same Unix seconds); only the location differs",
 	"(time.Duration).Seconds":    "float seconds; converting a whole-second duration below 2^32 s to uint32 is exact",
 	"fmt.Errorf":                 "returns a non-nil error; reads its arguments only",
 	"errors.New":                 "returns a non-nil error",
@@ -88,6 +90,8 @@ func init() {
 		"(*math/big.Int).Neg":      hBigNeg,
 		"time.Unix":                hTimeUnix,
 		"(time.Time).Unix":         hTimeUnixMethod,
+		"(time.Time).UTC":          hTimeSameInstant("(time.Time).UTC"),
+		"(time.Time).Local":        hTimeSameInstant("(time.Time).Local"),
 		"(time.Duration).Seconds":  hDurSeconds,
 		"fmt.Errorf":               hNewError,
 		"errors.New":               hNewError,
@@ -253,6 +257,17 @@ func hTimeUnix(x *Exec, fr *Frame, st *State, site ssa.Instruction, callee *ssa.
 func hTimeUnixMethod(x *Exec, fr *Frame, st *State, site ssa.Instruction, callee *ssa.Function, args []Val, k Kont) {
 	used(x, "(time.Time).Unix")
 	k(st, Val{T: types.Typ[types.Int64], C: []*Term{timeUnix(args[0])}}, false)
+}
+
+// UTC / Local: a fresh Time value denoting the same instant as the receiver
+func hTimeSameInstant(name string) stdHandler {
+	return func(x *Exec, fr *Frame, st *State, site ssa.Instruction, callee *ssa.Function, args []Val, k Kont) {
+		used(x, name)
+		r := freshVal(callee.Signature.Results().At(0).Type(), "time")
+		x.assumeWF(st, r)
+		st.assume(Eq(timeUnix(r), timeUnix(args[0])))
+		k(st, r, false)
+	}
 }
 
 func hDurSeconds(x *Exec, fr *Frame, st *State, site ssa.Instruction, callee *ssa.Function, args []Val, k Kont) {
